@@ -77,6 +77,8 @@ func checkC40(c *Ctx) string {
 
 	checkPerRequestState(c, "C40.4 K4 per-request resources reach the session on every path")
 	checkTranFallback(c, "C40.5 K4c an optional transaction decides between the transaction's and the connection's operation")
+	checkWorkerTaskBinding(c, "C40.6 K4 a worker binds its write buffer to every task")
+	checkHandlerResultsUsed(c, "C40.7 K8 handlers use what the database operation returned")
 	return "Static agreement of the two ends of the client-server protocol. Decided: every constant of type commands.Command indexes a non-nil entry of dbms.cmds (read from the composite literal) and the " +
 		"start-up assertion about the table evaluates to true; for every method of IDbms/ITran/IQuery/ICursor as implemented by the mux client types, the command constant passed to PutCmd selects a handler that " +
 		"invokes or references that very interface method (types.Func identity), or calls the same package function as (*DbmsLocal).M, or is one of six frozen session-local handlers; methods that send no command are " +
